@@ -27,6 +27,7 @@ type LogPlan struct {
 	Trigger       int       `json:"trigger"`         // sleepLadder index between TriggerWriter calls; -1 never
 	SlowAdapter   int       `json:"slow_adapter"`    // sleepLadder index, 0 = instant
 	ShutdownAfter int       `json:"shutdown_after"`  // -1: after all producers finished; else sleepLadder index
+	Shutdown2     bool      `json:"shutdown2,omitempty"` // a second goroutine calls Shutdown at the same time
 	PreStart      int       `json:"pre_start,omitempty"`
 	InitLevel     int       `json:"init_level"`
 }
@@ -38,6 +39,7 @@ type LogOp struct {
 	Pkg  int    `json:"pkg,omitempty"`
 	N    int    `json:"n,omitempty"`
 	Arg  int    `json:"arg,omitempty"`
+	Dup  bool   `json:"dup,omitempty"` // tracer: the submission is made twice in a row with the same final line (and different collected lines)
 }
 
 // CtrlOp is one operation of the control goroutine.
@@ -76,6 +78,7 @@ func (H) Generate(prop string, rng *rand.Rand, tier string) any {
 			case r < 8:
 				op.Kind = "tracer"
 				op.N = 1 + rng.IntN(5)
+				op.Dup = rng.IntN(3) == 0
 			default:
 				op.Kind = "sleep"
 				op.Arg = rng.IntN(len(sleepLadder))
@@ -114,6 +117,7 @@ func (H) Generate(prop string, rng *rand.Rand, tier string) any {
 	if rng.IntN(5) == 0 {
 		p.PreStart = 1 + rng.IntN(4)
 	}
+	p.Shutdown2 = rng.IntN(4) == 0
 	if rng.IntN(8) == 0 {
 		// full-buffer scenario: everything enabled, one producer fills the 1024-slot buffer, then plain lines and
 		// tracer submissions of all producers meet the full buffer
@@ -291,21 +295,39 @@ func (H) Execute(prop string, plan any, rc *simkit.RunCtx) {
 						rc.Probe("tracer-disabled")
 						continue
 					}
-					var lines []string
-					for k := 0; k < op.N-1; k++ {
-						l := fmt.Sprintf("%s-t%d", payload, k)
-						lines = append(lines, l)
-						pkga.TLog(tr, 1+k%6, l)
+					rounds := 1
+					if op.Dup {
+						rounds = 2
 					}
-					pkga.TLog(tr, op.Sev, payload)
-					c := &callRec{Prod: pi, Op: oi, Payload: payload, Sev: op.Sev, Pkg: op.Pkg, Inv: simrt.Seq(), Tracer: lines, IsSubmit: true}
-					if lines == nil {
-						c.Tracer = []string{}
+					for round := 0; round < rounds; round++ {
+						if round == 1 {
+							// a second trace that ends in the very same line: still a submission of its own
+							if op.Pkg == 0 {
+								_, tr = pkga.AddTracer(context.Background())
+							} else {
+								_, tr = pkgb.AddTracer(context.Background())
+							}
+							if tr == nil {
+								break
+							}
+							rc.Probe("tracer-submitted-twice-in-a-row")
+						}
+						var lines []string
+						for k := 0; k < op.N-1+round; k++ {
+							l := fmt.Sprintf("%s-t%d.%d", payload, round, k)
+							lines = append(lines, l)
+							pkga.TLog(tr, 1+k%6, l)
+						}
+						pkga.TLog(tr, op.Sev, payload)
+						c := &callRec{Prod: pi, Op: oi, Payload: payload, Sev: op.Sev, Pkg: op.Pkg, Inv: simrt.Seq(), Tracer: lines, IsSubmit: true}
+						if lines == nil {
+							c.Tracer = []string{}
+						}
+						s.calls = append(s.calls, c)
+						tr.Submit()
+						c.Ret, c.Returned = simrt.Seq(), true
+						rc.Probe("tracer-submitted")
 					}
-					s.calls = append(s.calls, c)
-					tr.Submit()
-					c.Ret, c.Returned = simrt.Seq(), true
-					rc.Probe("tracer-submitted")
 				}
 			}
 		}()
@@ -350,8 +372,25 @@ func (H) Execute(prop string, plan any, rc *simkit.RunCtx) {
 		}
 	}
 	s.shutInv = simrt.Seq()
+	var ret2 uint64
+	done2 := make(chan struct{})
+	if p.Shutdown2 {
+		go func() {
+			log.Shutdown()
+			ret2 = simrt.Seq()
+			close(done2)
+		}()
+	}
 	log.Shutdown()
 	s.shutRet = simrt.Seq()
+	if p.Shutdown2 {
+		// whichever of the two calls returns first: everything logged before shutdown was requested is written by then
+		<-done2
+		if ret2 < s.shutRet {
+			s.shutRet = ret2
+		}
+		rc.Probe("two-shutdown-callers")
+	}
 	s.shutReturned = true
 	close(stopTrigger)
 	simrt.AwaitQuiescence(time.Minute)
@@ -439,7 +478,7 @@ func (H) Check(prop string, plan any, rc *simkit.RunCtx) {
 	for i := 0; i < p.PreStart; i++ {
 		b[fmt.Sprintf("pre-%d", i)] = &bounds{0, 1}
 	}
-	submits := map[string]*callRec{}
+	submits := map[string][]*callRec{}
 	torn := map[string]bool{}
 	for _, c := range s.calls {
 		bb := b[c.Payload]
@@ -449,7 +488,7 @@ func (H) Check(prop string, plan any, rc *simkit.RunCtx) {
 		}
 		inWindow := c.Returned && c.Ret < s.shutInv && c.Inv > s.startRet
 		if c.IsSubmit {
-			submits[c.Payload] = c
+			submits[c.Payload] = append(submits[c.Payload], c)
 			bb.hi++
 			if inWindow {
 				bb.lo++
@@ -522,17 +561,36 @@ func (H) Check(prop string, plan any, rc *simkit.RunCtx) {
 		}
 	}
 	// tracer submissions carry all collected lines
+	usedSubmit := map[*callRec]bool{}
 	for _, o := range s.out {
-		c := submits[o.Text]
-		if c == nil {
+		cs := submits[o.Text]
+		if cs == nil {
 			if o.Tracer != nil {
 				rc.Fail("C20.tracer-lines", "a plain line carries tracer lines", o.Text)
 				return
 			}
 			continue
 		}
-		if strings.Join(o.Tracer, "|") != strings.Join(c.Tracer, "|") || o.Tracer == nil {
-			rc.Fail("C20.tracer-lines", "a tracer submission does not carry exactly the lines collected on it", fmt.Sprintf("%s: got %v want %v", o.Text, o.Tracer, c.Tracer))
+		if o.Dup > 0 {
+			rc.Fail("C20.tracer-merged", "tracer submissions were merged into one line although each carries its own collected lines", fmt.Sprintf("%s x%d", o.Text, o.Dup+1))
+			return
+		}
+		// several submissions may end in the same line: each output is matched with one of them that has not been
+		// matched yet and carries exactly these lines
+		matched := false
+		for _, c := range cs {
+			if !usedSubmit[c] && o.Tracer != nil && strings.Join(o.Tracer, "|") == strings.Join(c.Tracer, "|") {
+				usedSubmit[c] = true
+				matched = true
+				break
+			}
+		}
+		if !matched {
+			var want []string
+			for _, c := range cs {
+				want = append(want, fmt.Sprint(c.Tracer))
+			}
+			rc.Fail("C20.tracer-lines", "a tracer submission does not carry exactly the lines collected on it", fmt.Sprintf("%s: got %v want one of %s", o.Text, o.Tracer, strings.Join(want, " / ")))
 			return
 		}
 	}
